@@ -74,7 +74,7 @@ func (e *Engine) verifyFunc(name string) (*FuncResult, error) {
 		fr.vals[p] = v
 	}
 	for i, fv := range fn.FreeVars {
-		fr.names[fv.Name()] = binds[i]
+		fr.names["&"+fv.Name()] = binds[i]
 		fr.vals[fv] = binds[i]
 	}
 	fr.entry = st.clone()
@@ -156,7 +156,7 @@ func solveAll(workDir string, frs []*FuncResult, timeoutS int, jobs int) {
 				o.File = file
 				writeQuery(file, j.fr.Facts[:o.NFacts], "(assert "+o.Pc+")", "(assert (not "+o.Goal+"))", "(check-sat)")
 				var res SolverResult
-				if strings.HasSuffix(o.Name, "!finding") {
+				if strings.HasSuffix(o.Name, "!finding") || o.Kind == "vacuity" {
 					// "is the known finding still there?": a quick look is enough, no answer means still there
 					res = runSolver("z3-new", file, 3)
 				} else {
